@@ -114,6 +114,10 @@ def check(ctx, report):
             text_bindings(ctx, c, report)
         else:
             report.count('C01.R1', 1, nontrivial=0)
+    # vectors: the kind of item the parameter object describes (what the parser produces) is the kind the composer handles
+    from .c12 import item_size_agreement
+    item_size_agreement(ctx, report, model.cls('ArrayBase'), RULE='C01.R6',
+                        title='vector parameter (item kind produced by the parser) and vector composer (item kind consumed) agree')
     if 'SslRecord' in reviewed and reviewed['SslRecord'].get('strip_header'):
         # the header left out of the element-wise comparison above
         from .c06 import ssl2_header
